@@ -25,6 +25,7 @@ type c06Case struct {
 	Bound    int        `json:"bound"`
 	Schedule []int      `json:"schedule,omitempty"` // replay: exactly this choice sequence
 	MaxExec  int        `json:"max_exec,omitempty"`
+	NoFile   bool       `json:"nofile,omitempty"` // the shared snapshot file does not exist yet (first run of a package): creating calls only
 }
 
 var c06Digits = regexp.MustCompile(`[0-9]+`)
@@ -87,6 +88,9 @@ func c06Want(kind string) (outcome, final string) {
 		o, _ := c06Want(strings.TrimSuffix(kind, "-grow"))
 		return o, "new\nsecond line\nthird line\nfourth line"
 	}
+	if strings.HasSuffix(kind, "-shrink") {
+		return c06Want(strings.TrimSuffix(kind, "-shrink")) // the stored value has four lines, the new one has one
+	}
 	q := ""
 	if strings.HasPrefix(kind, "sj-") {
 		q = `"`
@@ -124,11 +128,17 @@ func c06Build(c *vfCtx, cs c06Case, n int) (*c06World, []func()) {
 			_, old := c06Want(strings.Replace(strings.Replace(s.kind, "update", "match", 1), "mismatch", "match", 1))
 			os.WriteFile(filepath.Join(dir, s.id), []byte(old), 0o644)
 		} else {
-			pre = append(pre, vfEntry{ID: s.id, Body: "old"})
+			body := "old"
+			if strings.HasSuffix(s.kind, "-shrink") {
+				body = "old\nold line 2\nold line 3\nold line 4" // the update makes the entry (and the file) three lines shorter
+			}
+			pre = append(pre, vfEntry{ID: s.id, Body: body})
 		}
 	}
 	pre = append(pre, vfEntry{ID: "TestZ - 2", Body: "keep2"})
-	os.WriteFile(filepath.Join(dir, "f.snap"), vfRender(pre), 0o644)
+	if !cs.NoFile {
+		os.WriteFile(filepath.Join(dir, "f.snap"), vfRender(pre), 0o644)
+	}
 	shared := map[string]*Config{
 		"":        WithConfig(Dir(dir), Filename("f")),
 		"true":    WithConfig(Dir(dir), Filename("f"), Update(true)),
@@ -151,6 +161,7 @@ func c06Build(c *vfCtx, cs c06Case, n int) (*c06World, []func()) {
 				if strings.HasSuffix(kind, "match") && !strings.HasSuffix(kind, "mismatch") {
 					val = "old"
 				}
+				kind = strings.TrimSuffix(kind, "-shrink")
 				if strings.HasSuffix(kind, "-grow") {
 					val = "new\nsecond line\nthird line\nfourth line" // the rewrite changes the number of lines of the file
 					kind = strings.TrimSuffix(kind, "-grow")
@@ -198,6 +209,9 @@ func c06Check(cs c06Case, w *c06World, x *sched.Exec) string {
 	var probs []string
 	slots := c06Slots(cs)
 	want := map[string]string{"TestZ - 1": "keep", "TestZ - 2": "keep2"}
+	if cs.NoFile {
+		want = map[string]string{}
+	}
 	counts := map[uint8]int{}
 	skips := 0
 	for _, s := range slots {
@@ -259,6 +273,9 @@ func c06Check(cs c06Case, w *c06World, x *sched.Exec) string {
 		}
 	}
 	preOrder = append(preOrder, "TestZ - 2")
+	if cs.NoFile {
+		preOrder = nil
+	}
 	isPre := map[string]bool{}
 	for _, id := range preOrder {
 		isPre[id] = true
@@ -493,6 +510,13 @@ func c06Gen(c *vfCtx, emit func(c06Case)) {
 		for _, k := range []string{"update", "update-grow", "match", "mismatch", "create"} {
 			scen([][]string{{"update-grow"}, {k}}, 2)
 			scen([][]string{{k}, {"update-grow"}}, 2)
+			scen([][]string{{"update-shrink"}, {k}}, 2)
+			scen([][]string{{k}, {"update-shrink"}}, 2)
+		}
+		scen([][]string{{"update-shrink"}, {"update-shrink"}}, 2)
+		// the very first run: the shared file does not exist yet, every thread creates
+		for i, th := range [][][]string{{{"create"}, {"create"}}, {{"create", "create"}, {"create"}}, {{"create"}, {"create"}, {"create"}}, {{"create-big"}, {"create"}}} {
+			emit(c06Case{Threads: th, Bound: []int{3, 2, 1, 2}[i], NoFile: true})
 		}
 		// values of ~40 KB: appends and rewrites must stay single atomic writes
 		for _, k := range []string{"create", "update", "match", "create-big", "update-big"} {
@@ -621,6 +645,40 @@ func c06RaceBig(c *vfCtx) {
 	}
 }
 
+// c06RaceJSON: one Config built with every option (a JSON format among them) shared by tests that call the JSON entry points
+// at the same time: whatever the Config holds is read-only for the calls.
+func c06RaceJSON(c *vfCtx) {
+	reps := 10
+	if c.thorough() {
+		reps = 60
+	}
+	for r := 0; r < reps; r++ {
+		dir := filepath.Join(c.scratch, "e2w")
+		os.RemoveAll(dir)
+		os.MkdirAll(dir, 0o755)
+		vfResetState(false, "", true)
+		cfg := WithConfig(Dir(dir), Filename("f"), Ext(".x"), Update(true), JSON(JSONConfig{Indent: "  ", SortKeys: true, Width: 30}))
+		var wg sync.WaitGroup
+		start := make(chan struct{})
+		for i := 0; i < 6; i++ {
+			wg.Add(1)
+			i := i
+			go func() {
+				defer wg.Done()
+				<-start
+				t := &vfT{name: fmt.Sprintf("TestJ%d", i)}
+				cfg.MatchJSON(t, fmt.Sprintf(`{"b":[1,2,3],"a":%d}`, i))
+				cfg.MatchStandaloneJSON(t, map[string]any{"i": i, "l": []int{1, 2}})
+				cfg.MatchYAML(t, fmt.Sprintf("a: %d\n", i))
+				t.end()
+			}()
+		}
+		close(start)
+		wg.Wait()
+		c.count("race_runs", 1)
+	}
+}
+
 func init() {
 	vfRegister("C06", func(c *vfCtx, emit func(c06Case)) {
 		c.rule = "every scenario = assignment of {create, match, mismatch, update, standalone variants, Skip} to the calls of 2..3 concurrently running tests sharing one snapshot file and shared Configs; " +
@@ -630,10 +688,10 @@ func init() {
 		c.assume("shared memory is read and written only between scheduling points; unsynchronised accesses are caught by the separate free-running -race pass, not by the scheduler")
 		c06Gen(c, emit)
 	}, c06Run)
-	vfDrivers["C06"].race = func(c *vfCtx) { c06Race(c); c06RaceBig(c) }
+	vfDrivers["C06"].race = func(c *vfCtx) { c06Race(c); c06RaceBig(c); c06RaceJSON(c) }
 }
 
 // c06Base strips the value-shape suffixes of a kind.
 func c06Base(kind string) string {
-	return strings.TrimSuffix(strings.TrimSuffix(kind, "-big"), "-grow")
+	return strings.TrimSuffix(strings.TrimSuffix(strings.TrimSuffix(kind, "-big"), "-grow"), "-shrink")
 }
